@@ -60,7 +60,7 @@ class JobResult:
         self.dir = None
 
 
-def run_job(job, root, pid_prop):
+def run_job(job, root, pid_prop, adopt=frozenset()):
     jr = JobResult(job)
     d = os.path.join(root, re.sub(r"[^A-Za-z0-9_.-]", "_", job["name"]))
     os.makedirs(d, exist_ok=True)
@@ -164,7 +164,7 @@ def run_job(job, root, pid_prop):
         # traces for failed property obligations relevant to this property (at most 2)
         n = 0
         for f in jr.failed:
-            if f[1] == "prop" and pid_prop in f[2] and n < 2:
+            if f[1] == "prop" and n < 2 and (pid_prop in f[2] or (adopt & f[2])):
                 if f[0].get("gb"):
                     jt = dict(job)
                     jt["defs"] = f[0]["gdefs"]
@@ -261,7 +261,7 @@ def _run(pid, tier, seed, prop, JOBS, root, t0):
                 sem_lock.wait()
             used[0] += need
         try:
-            return run_job(job, root, pid)
+            return run_job(job, root, pid, frozenset(prop.get("adopt", [])))
         finally:
             with sem_lock:
                 used[0] -= need
@@ -289,7 +289,7 @@ def _run(pid, tier, seed, prop, JOBS, root, t0):
         for (r, kind, ids, tr, vals) in jr.failed:
             if kind == "aux":
                 aux_fail.append((jr, r))
-            elif pid in ids:
+            elif pid in ids or (set(prop.get("adopt", [])) & ids):
                 k = [k for k in known if k["prop"] == pid and k["job"] == jr.job["name"] and re.search(k["re"], r["desc"])]
                 if k:
                     known_hits.append((k[0], jr, r))
@@ -367,7 +367,7 @@ def _run(pid, tier, seed, prop, JOBS, root, t0):
     for l in lines:
         say(l)
     wall = time.time() - t0
-    if exit_code != 2:
+    if exit_code != 2 and not os.environ.get("TJV_ONLY"):      # a debugging subset must not overwrite the evidence of a full run
         write_evidence(pid, tier, seed, prop, results, total, discharged, wall, len(violations) + len(pre_viol),
                        known_hits, pre_msgs, other_fail)
     say("%s %s: %s  (%d obligations, %d discharged, %d jobs, %.1fs)" % (
